@@ -49,7 +49,7 @@ Ltac rew_pcs :=
   | H : ?l = _ |- _ =>
       match l with
       | cp _ _ => idtac | lp _ _ => idtac | hc _ _ => idtac | pp _ _ => idtac | mp _ _ => idtac
-      | closedLock _ => idtac | runningLock _ => idtac | w1 _ => idtac | w2 _ => idtac | run _ => idtac
+      | closedLock _ => idtac | handlersLock _ => idtac | rp _ _ => idtac | rh_isclosed _ => idtac | runningLock _ => idtac | w1 _ => idtac | w2 _ => idtac | run _ => idtac
       | close_res _ => idtac | fix16 _ => idtac | fix5 _ => idtac | fix6 _ => idtac | fix12 _ => idtac
       | closed _ => idtac | closingCh _ => idtac | closedCh _ => idtac | ctx_done _ => idtac | early_cancel _ => idtac
       | out_closed _ _ => idtac | sub_open _ _ => idtac | hstop _ _ => idtac | sub_closing _ _ => idtac | dec_closing _ _ => idtac
@@ -59,6 +59,8 @@ Ltac rew_pcs :=
 Ltac injs := repeat match goal with
   | H : Some _ = Some _ |- _ => injection H as H; try subst
   | H : OLoop _ = OLoop _ |- _ => injection H as H; try subst
+  | H : HOCloser _ = HOCloser _ |- _ => injection H as H; try subst
+  | H : HORh _ = HORh _ |- _ => injection H as H; try subst
   end.
 Ltac fin := try solve [simpl in *; intuition (congruence || lia || discriminate)].
 Ltac fin2 := try solve [injs; rew_pcs; simpl in *; injs; intuition (congruence || lia || discriminate)].
@@ -76,7 +78,11 @@ Ltac fin3 := try solve [injs; rew_pcs; simpl in *; fwd; injs; rew_pcs; simpl in 
 
 (** ** InvC: the closer protocol *)
 Definition holds (p : cpc) : bool :=
+  match p with CHWant | CLocked | CSignal | CWait | CClosedCh _ | CUnlock _ => true | _ => false end.
+(** the program counters at which a Close call holds handlersLock, a RunHandlers call holds it *)
+Definition holdsH (p : cpc) : bool :=
   match p with CLocked | CSignal | CWait | CClosedCh _ | CUnlock _ => true | _ => false end.
+Definition rh_holds (p : rhpc) : bool := match p with RHLocked | RHCWant | RHChecked => true | _ => false end.
 Definition deciding (p : cpc) : bool := match p with CSignal | CWait => true | _ => false end.
 (** what a Close call may return given the remembered result *)
 Definition nil_ok (s : state) : bool :=
@@ -85,6 +91,10 @@ Definition nil_ok (s : state) : bool :=
 Record InvC (s : state) : Prop := {
   c_lock1 : forall c, closedLock s = Some c -> holds (cp s c) = true;
   c_lock2 : forall c, holds (cp s c) = true -> closedLock s = Some c;
+  c_hl1 : forall c, handlersLock s = Some (HOCloser c) -> holdsH (cp s c) = true;
+  c_hl2 : forall c, holdsH (cp s c) = true -> handlersLock s = Some (HOCloser c);
+  c_hl3 : forall r : nat, handlersLock s = Some (HORh r) -> rh_holds (rp s r) = true;
+  c_hl4 : forall r : nat, rh_holds (rp s r) = true -> handlersLock s = Some (HORh r);
   c_closed0 : closed s = false -> closingCh s = false;
   c_closing0 : closingCh s = false -> closedCh s = false /\ close_res s = None /\ w1 s = W1None /\ w2 s = W2None;
   c_sig : forall c, cp s c = CSignal -> closed s = true /\ closingCh s = false;
@@ -363,6 +373,12 @@ Qed.
 Lemma InvA_LSubCloseRet s h s' : InvC s -> InvA' s -> step s (LSubCloseRet h) = Some s' -> InvA' s'.
 Proof. intros IC I H. invA_auto s IC I H. Qed.
 
+Lemma InvA_LRhCall s r s' : InvC s -> InvA' s -> step s (LRhCall r) = Some s' -> InvA' s'.
+Proof. intros IC I H. invA_auto s IC I H. Qed.
+
+Lemma InvA_LRh s r s' : InvC s -> InvA' s -> step s (LRh r) = Some s' -> InvA' s'.
+Proof. intros IC I H. invA_auto s IC I H. Qed.
+
 Lemma InvA'_init_u n u hon f5 f6 f12 f16 : InvA' (init_u n u hon f5 f6 f12 f16).
 Proof.
   constructor; [apply InvA_init_u|]. simpl. intros h m. destruct (Nat.ltb h n); discriminate.
@@ -379,9 +395,11 @@ Proof.
   - eapply InvA_LChanClose; eassumption.
   - eapply InvA_LFinish; eassumption.
   - eapply InvA_LTimeout; eassumption.
+  - eapply InvA_LRhCall; eassumption.
   - eapply InvA_LSubCloseRet; eassumption.
   - eapply InvA_LClose; eassumption.
   - eapply InvA_LWaitDone; eassumption.
+  - eapply InvA_LRh; eassumption.
   - eapply InvA_LW1; eassumption.
   - eapply InvA_LW2; eassumption.
   - eapply InvA_LRun; eassumption.
